@@ -18,6 +18,7 @@ import (
 	"os"
 	"path/filepath"
 	"regexp"
+	"runtime/pprof"
 	"sort"
 	"strconv"
 	"strings"
@@ -712,6 +713,11 @@ func (e *env) check(cs caseC) {
 func jsonStr(v any) string { b, _ := json.Marshal(v); return string(b) }
 
 func run(c *lib.Ctx) {
+	if pf := os.Getenv("VERIF_C17_PROF"); pf != "" && c.ShardI == 0 {
+		f, _ := os.Create(pf)
+		_ = pprof.StartCPUProfile(f)
+		defer pprof.StopCPUProfile()
+	}
 	e, err := newEnv(c)
 	if err != nil {
 		c.EngineError(err.Error())
